@@ -13,6 +13,7 @@ namespace exec
 {
 bool g_record = false;
 bool g_trace_ops = false;
+FILE *g_trace_file = stdout;
 
 // ---------------------------------------------------------------------------------------------
 // harness buffers: exact documented extent, 64-byte canaries either side
@@ -1000,8 +1001,8 @@ RunResult run_plan(const Plan &p0, uint64_t garbage_salt)
         c.res.kinds.push_back(plan::kind_name(op.kind));
         if (g_trace_ops)
         {
-            printf("O %zu %s\n", i, plan::kind_name(op.kind));
-            fflush(stdout);
+            fprintf(g_trace_file, "O %zu %s\n", i, plan::kind_name(op.kind));
+            fflush(g_trace_file);
         }
         switch (op.kind)
         {
@@ -1040,8 +1041,8 @@ RunResult run_plan(const Plan &p0, uint64_t garbage_salt)
     endop.kind = plan::K_DELETE_OBJECT;
     if (g_trace_ops)
     {
-        printf("O %zu END\n", p.ops.size());
-        fflush(stdout);
+        fprintf(g_trace_file, "O %zu END\n", p.ops.size());
+        fflush(g_trace_file);
     }
     c.op_index = (int)p.ops.size();
     for (int s = 0; s < 2; s++)
